@@ -103,10 +103,10 @@ type TSliceOfSlices struct {
 }
 
 type TMaps struct {
-	ID int64            `parquet:"id"`
-	M  map[string]int64 `parquet:"m"`
+	ID int64             `parquet:"id"`
+	M  map[string]int64  `parquet:"m"`
 	S  map[string]string `parquet:"s,optional"`
-	I  map[int64]Inner  `parquet:"i"`
+	I  map[int64]Inner   `parquet:"i"`
 }
 
 type TEncoded struct {
@@ -124,33 +124,33 @@ type TEncoded struct {
 }
 
 type TLogical struct {
-	ID   int64     `parquet:"id"`
-	Tms  time.Time `parquet:"tms,timestamp(millisecond)"`
-	Tus  time.Time `parquet:"tus,timestamp(microsecond)"`
-	Tns  time.Time `parquet:"tns,timestamp(nanosecond)"`
-	Ti   int64     `parquet:"ti,timestamp(microsecond:local)"`
-	Dt   int32     `parquet:"dt,date"`
-	D32  int32     `parquet:"d32,decimal(2:9)"`
-	D64  int64     `parquet:"d64,decimal(3:18)"`
-	DF   [12]byte  `parquet:"df,decimal(4:28)"`
-	En   string    `parquet:"en,enum"`
-	Js   string    `parquet:"js,json"`
-	Id   uuid.UUID `parquet:"uid,uuid"`
+	ID   int64      `parquet:"id"`
+	Tms  time.Time  `parquet:"tms,timestamp(millisecond)"`
+	Tus  time.Time  `parquet:"tus,timestamp(microsecond)"`
+	Tns  time.Time  `parquet:"tns,timestamp(nanosecond)"`
+	Ti   int64      `parquet:"ti,timestamp(microsecond:local)"`
+	Dt   int32      `parquet:"dt,date"`
+	D32  int32      `parquet:"d32,decimal(2:9)"`
+	D64  int64      `parquet:"d64,decimal(3:18)"`
+	DF   [12]byte   `parquet:"df,decimal(4:28)"`
+	En   string     `parquet:"en,enum"`
+	Js   string     `parquet:"js,json"`
+	Id   uuid.UUID  `parquet:"uid,uuid"`
 	OptT *time.Time `parquet:"optt,timestamp(microsecond)"`
 }
 
 type TInt96 struct {
-	ID int64            `parquet:"id"`
-	A  deprecated.Int96 `parquet:"a"`
+	ID int64             `parquet:"id"`
+	A  deprecated.Int96  `parquet:"a"`
 	O  *deprecated.Int96 `parquet:"o"`
 }
 
 type TFixed struct {
-	ID  int64    `parquet:"id"`
-	F1  [1]byte  `parquet:"f1"`
-	F5  [5]byte  `parquet:"f5"`
-	F16 [16]byte `parquet:"f16"`
-	FD  [5]byte  `parquet:"fd,dict"`
+	ID  int64     `parquet:"id"`
+	F1  [1]byte   `parquet:"f1"`
+	F5  [5]byte   `parquet:"f5"`
+	F16 [16]byte  `parquet:"f16"`
+	FD  [5]byte   `parquet:"fd,dict"`
 	O16 *[16]byte `parquet:"o16"`
 	L5  [][5]byte `parquet:"l5"`
 }
@@ -181,16 +181,16 @@ type TKeyed struct {
 }
 
 type TListOptElem struct {
-	ID int64     `parquet:"id"`
+	ID int64    `parquet:"id"`
 	A  []int64  `parquet:"a,list" parquet-element:",optional"`
 	S  []string `parquet:"s,optional,list" parquet-element:",optional"`
 }
 
 type TWide struct {
-	ID                                      int64 `parquet:"id"`
+	ID                                     int64 `parquet:"id"`
 	C0, C1, C2, C3, C4, C5, C6, C7, C8, C9 int64
-	S0, S1, S2                              string
-	O0, O1                                  *int32
+	S0, S1, S2                             string
+	O0, O1                                 *int32
 }
 
 type TOptGroups struct {
@@ -214,12 +214,57 @@ type TBoolHeavy struct {
 }
 
 type TStrings struct {
-	ID int64   `parquet:"id"`
-	S  string  `parquet:"s"`
-	O  *string `parquet:"o"`
-	D  string  `parquet:"d,dict"`
-	Bs []byte  `parquet:"bs"`
+	ID int64    `parquet:"id"`
+	S  string   `parquet:"s"`
+	O  *string  `parquet:"o"`
+	D  string   `parquet:"d,dict"`
+	Bs []byte   `parquet:"bs"`
 	L  []string `parquet:"l,list"`
+}
+
+type Mid struct {
+	M int64 `parquet:"m"`
+	Emb
+	MZ *int32 `parquet:"mz"`
+}
+
+type TEmbedded2 struct {
+	ID int64 `parquet:"id"`
+	Mid
+	Z string `parquet:"z,optional"`
+}
+
+type TMapOfMaps struct {
+	ID int64                       `parquet:"id"`
+	MM map[string]map[string]int64 `parquet:"mm"`
+	ML map[string][]string         `parquet:"ml"`
+	MP map[int32]*Inner            `parquet:"mp"`
+}
+
+type TDictAll struct {
+	ID  int64            `parquet:"id"`
+	I32 int32            `parquet:"i32,dict"`
+	I64 int64            `parquet:"i64,dict"`
+	F32 float32          `parquet:"f32,dict"`
+	F64 float64          `parquet:"f64,dict"`
+	S   string           `parquet:"s,dict"`
+	Bs  []byte           `parquet:"bs,dict"`
+	F5  [5]byte          `parquet:"f5,dict"`
+	U   [16]byte         `parquet:"u,dict,uuid"`
+	I96 deprecated.Int96 `parquet:"i96,dict"`
+	B   bool             `parquet:"b,dict"`
+	U32 uint32           `parquet:"u32,dict"`
+	U64 uint64           `parquet:"u64,dict"`
+}
+
+type TRepDict struct {
+	ID int64             `parquet:"id"`
+	L  []string          `parquet:"l,dict"`
+	LL []string          `parquet:"ll,list" parquet-element:",dict"`
+	LI []int64           `parquet:"li,dict"`
+	M  map[string]string `parquet:"m" parquet-value:",dict"`
+	O  *string           `parquet:"o,dict"`
+	LF [][5]byte         `parquet:"lf,dict"`
 }
 
 // typeEntry binds the compile-time generic entry points of one catalogue type.
@@ -258,6 +303,10 @@ func init() {
 	reg[TOptGroups]("optgroups")
 	reg[TBoolHeavy]("boolheavy")
 	reg[TStrings]("strings")
+	reg[TEmbedded2]("embedded2")
+	reg[TMapOfMaps]("mapofmaps")
+	reg[TDictAll]("dictall")
+	reg[TRepDict]("repdict")
 }
 
 func typeByName(n string) *typeEntry {
